@@ -23,6 +23,12 @@ ALL = [f"C{i:02d}" for i in range(1, 21)]
 
 
 def main():
+    import glob
+
+    for f in sorted(glob.glob(os.path.join(HERE, "manifest_parts", "C*.json"))):
+        pid = os.path.basename(f)[:-5]
+        d = json.load(open(f))
+        CHECKS[pid] = (d["category"], d["text"], d["level_note"], d["technique"], d.get("design_ref", "7 (%s)" % pid))
     checks = []
     for pid in ALL:
         if pid not in CHECKS:
